@@ -630,6 +630,12 @@ def tag_compat(t1, t2):
     """True (definitely aligned), False (may be misaligned at equal length), None (unknown)."""
     if t1 is TOP or t2 is TOP or t1 is None or t2 is None:
         return None
+    for a, b in ((t1, t2), (t2, t1)):
+        if isinstance(a, tuple) and a and a[0] == 'alts':
+            rs = [tag_compat(x, b) for x in a[1:]]
+            if any(r is False for r in rs):
+                return False
+            return True if all(r is True for r in rs) else None
     if t1 == ANY or t2 == ANY or t1 == t2:
         return True
     # a training-order list filtered by membership, paired with the full training order:
@@ -731,6 +737,10 @@ class OrderKind(AbsInt):
     def binop(self, node, left, right, fr):
         if isinstance(node.op, ast.MatMult):
             return self.matmul(node, left, right, fr)
+        if isinstance(node.op, ast.Add) and all(isinstance(x, tuple) and x and x[0] == 'ord' and isinstance(x[1], tuple) and x[1]
+                                                and x[1][0] in ('filter', 'xcols', 'keys', 'cols', 'sorted', 'concat') for x in (left, right)) \
+                and self._is_list_expr(node, fr):
+            return ('ord', ('concat', left[1], right[1]))
         for a, b in ((left, right), (right, left)):
             if isinstance(a, tuple) and a and a[0] in ('mat', 'ord'):
                 if isinstance(b, tuple) and b and b[0] == a[0]:
@@ -744,6 +754,60 @@ class OrderKind(AbsInt):
 
     def unaryop(self, node, operand, fr):
         return operand
+
+    def _is_list_expr(self, node, fr):
+        """`a + b` is list concatenation when an operand is a list/comprehension (through single-assignment locals)."""
+        from .idioms import resolve
+        for side in (node.left, node.right):
+            v = resolve(fr.fn.node, side)
+            if isinstance(v, (ast.List, ast.ListComp)) or (isinstance(v, ast.Call) and isinstance(v.func, ast.Name) and v.func.id in ('list', 'sorted')):
+                return True
+        return False
+
+    def returns(self, fr):
+        """Path by path; different orders on different paths are kept as alternatives."""
+        from .idioms import enum_paths
+        from .absint import Frame as _Frame
+        vals = []
+        for path in enum_paths(fr.fn.body()):
+            if not isinstance(path.end, ast.Return) or path.end.value is None:
+                continue
+            sub = _Frame(fr.fn, dict(fr.params), fr.concrete, fr.depth, path=path)
+            v = self.value(path.end.value, sub)
+            if v not in vals:
+                vals.append(v)
+        if not vals:
+            return TOP
+        if len(vals) == 1:
+            return vals[0]
+        if all(isinstance(v, tuple) and v and v[0] == 'ord' for v in vals):
+            return ('ord', ('alts',) + tuple(v[1] for v in vals))
+        if all(isinstance(v, tuple) and v and v[0] == 'mat' for v in vals):
+            rows = [v[1] for v in vals]
+            cols = [v[2] for v in vals]
+            rt = rows[0] if all(r == rows[0] for r in rows) else ('alts',) + tuple(dict.fromkeys(rows))
+            ct = cols[0] if all(c == cols[0] for c in cols) else ('alts',) + tuple(dict.fromkeys(cols))
+            return ('mat', rt, ct)
+        if all(isinstance(v, Tup) for v in vals) and len({len(v.elems) for v in vals}) == 1:
+            return Tup([self._alts([v.elems[k] for v in vals]) for k in range(len(vals[0].elems))])
+        out = BOT
+        for v in vals:
+            out = self.join(out, v)
+        return out
+
+    def _alts(self, vs):
+        uniq = []
+        for v in vs:
+            if v not in uniq:
+                uniq.append(v)
+        if len(uniq) == 1:
+            return uniq[0]
+        if all(isinstance(v, tuple) and v and v[0] == 'ord' for v in uniq):
+            return ('ord', ('alts',) + tuple(v[1] for v in uniq))
+        out = BOT
+        for v in uniq:
+            out = self.join(out, v)
+        return out
 
     def matmul(self, node, a, b, fr):
         if isinstance(a, tuple) and a and a[0] == 'mat':
@@ -768,9 +832,14 @@ class OrderKind(AbsInt):
                 return ('mat', self.otag(r), self.otag(c))
             if isinstance(const_value(sl, None), int):
                 return ('ord', base[2])  # one row
+            lab = self.value(sl, fr) if not isinstance(sl, (ast.Slice, ast.Tuple)) else TOP
+            if isinstance(lab, tuple) and lab and lab[0] == 'ord' and not (isinstance(node.value, ast.Attribute) and node.value.attr in ('loc', 'iloc')):
+                return ('mat', base[1], lab[1])  # frame[list of labels]: those columns, in that order
             return TOP
         if isinstance(base, tuple) and base and base[0] == 'container':
             return ANY  # label-based access: order-agnostic
+        if isinstance(base, tuple) and base and base[0] == 'ord' and isinstance(node.slice, (ast.Compare, ast.BinOp, ast.UnaryOp)):
+            return ('ord', ('filter', base[1], 'mask:' + ast.unparse(node.slice)[:40]))
         if isinstance(base, tuple) and base and base[0] == 'ord':
             if isinstance(node.slice, ast.Slice):
                 if node.slice.step is not None or node.slice.lower is not None or node.slice.upper is not None:
@@ -791,10 +860,9 @@ class OrderKind(AbsInt):
             src = self.loop_order(g.iter, fr, node)
             for cond in g.ifs:
                 k = self._membership(cond, fr, g.target)
-                if k is not None:
-                    src = ('filter', src, k)
-                else:
-                    return TOP
+                if k == 'IDENT' and src == ('cols',):
+                    continue
+                src = ('filter', src, k if k is not None else 'cond:' + ast.unparse(cond)[:40])
             return ('ord', src) if src is not TOP else TOP
         return TOP
 
@@ -830,6 +898,8 @@ class OrderKind(AbsInt):
                 return v[1][1]
             if isinstance(v, tuple) and v and v[0] == 'mat' and isinstance(v[2], tuple) and v[2][0] in ('keys', 'xcols'):
                 return v[2][1]
+            if isinstance(v, tuple) and v and v[0] == 'mat' and v[2] == ('cols',):
+                return 'IDENT'  # membership in a frame labelled with exactly the training columns
         return None
 
     def name(self, node, fr):
@@ -868,9 +938,9 @@ class OrderKind(AbsInt):
         tag = self.loop_order(loop.iter, fr, loop)
         for t in chain:
             k = self._membership(t, fr, loop.target)
-            if k is None:
-                return TOP
-            tag = ('filter', tag, k)
+            if k == 'IDENT' and tag == ('cols',):
+                continue
+            tag = ('filter', tag, k if k is not None else 'cond:' + ast.unparse(t)[:40])
         return ('ord', tag) if tag is not TOP else TOP
 
     # ------------------------------------------------------------------- calls
@@ -1012,6 +1082,10 @@ def fmt_tag(t):
             return f'{t[0]}({fmt_tag(t[1])})'
         if t[0] == 'slice':
             return f'{fmt_tag(t[1])}[{t[2]}]'
+        if t[0] == 'concat':
+            return f'{fmt_tag(t[1])} ++ {fmt_tag(t[2])}'
+        if t[0] == 'alts':
+            return ' or '.join(fmt_tag(x) for x in t[1:])
     return str(t)
 
 
